@@ -60,3 +60,28 @@ Example C15_examples :
   decode_half 0x3C00 = 0x3F800000 /\ decode_half 0x0001 = 0x33800000 /\ decode_half 0xFC00 = 0xFF800000 /\
   encode_half_bits 0x33800000 = Some 0x0001 /\ half_is_nan 0x7C01 = true /\ half_is_nan 0x7C00 = false.
 Proof. repeat split; vm_compute; reflexivity. Qed.
+
+(* ---- translator tie, second wave: the float encoders and _cbor_decode_half as translated from this run's clang
+   AST (float parameters as bit patterns, isnan as the bit test, ldexp as a constructor) are the model's ---- *)
+From Coq Require Import ZArith.
+From CB Require Import PHalfShape GenLeafTypes Bridge_leaf_float Bridge_leaf_ehalf Bridge_leaf_dechalf.
+From CBGen Require Import Gen_leaf.
+Theorem C15_code_encode_half : forall val size, val < 2^32 ->
+  gcbor_encode_half (Z.of_N val) (Z.of_N size) = option_map zres (encode_half val size).
+Proof. exact bridge_encode_half. Qed.
+Theorem C15_code_encode_single : forall v size, v < 2^32 ->
+  gcbor_encode_single (Z.of_N v) (Z.of_N size) = zres (encode_single v size).
+Proof. exact bridge_encode_single. Qed.
+Theorem C15_code_encode_double : forall v size, v < 2^64 ->
+  gcbor_encode_double (Z.of_N v) (Z.of_N size) = zres (encode_double v size).
+Proof. exact bridge_encode_double. Qed.
+Theorem C15_code_decode_half : forall b0 b1, b0 < 256 -> b1 < 256 ->
+  f32_bits (g_cbor_decode_half (srcf [b0; b1])) = decode_half (be_val [b0; b1]).
+Proof. exact bridge_decode_half. Qed.
+Theorem C15_code_decode_half_kind : forall b0 b1, b0 < 256 -> b1 < 256 ->
+  fkind_of (g_cbor_decode_half (srcf [b0; b1])) = fkind_of (decode_half_shape (b0 * 256 + b1)).
+Proof. exact bridge_decode_half_kind. Qed.
+Theorem C15_decode_half_shape : forall h, h < 2^16 -> f32_bits (decode_half_shape h) = decode_half h.
+Proof. exact decode_half_shape_bits. Qed.
+Print Assumptions C15_code_encode_half.
+Print Assumptions C15_code_decode_half.
